@@ -135,11 +135,17 @@ class Builder:
                 choices += ["provide"] * int(cfg.get("provide_weight", 1))
         if scope.owner is not None and cfg["isfilled"]:
             choices += ["isfilled"]
+        # (not directly in the page template: there the tag legitimately writes into the caller's own Context)
+        if cfg.get("assign") and scope.loops == 0 and has_ref and (scope.owner is not None or where == "fillbody"):
+            choices += ["assign"]
         if cfg["ticks"]:
             choices += ["tick"]
         if cfg["deps"] and scope.owner is not None and self.chance(2):
             return {"t": self.pick(["depjs", "depcss"])}
         kind = self.pick(choices)
+        if kind == "assign":
+            # {% firstof EXPR as NAME %}: binds NAME in the current scope FROM HERE ON (component tags written before it must not see it)
+            return {"t": "assign", "n": self.name("a"), "e": self.expr(scope)}
         if kind == "text":
             return {"t": "text", "s": self.fresh("t")}
         if kind == "var":
